@@ -1,6 +1,6 @@
 #!/bin/bash
-# confirm_queue.sh <id>[:<demo package>]... : confirm seeds one after the other (they share one scratch worktree)
+# confirm_queue.sh <id>[:<demo package>[:<demo path>]]... : confirm seeds one after the other (they share one scratch worktree)
 for item in "$@"; do
-  id=${item%%:*}; pkg=shuttle; [ "$item" != "$id" ] && pkg=${item#*:}
-  /verif/tools/confirm_seed.sh "$id" /verif/seeded/"$id" "$pkg" seeded_demo
+  IFS=: read -r id pkg dst <<< "$item"
+  /verif/tools/confirm_seed.sh "$id" /verif/seeded/"$id" "${pkg:-shuttle}" seeded_demo "$dst"
 done
